@@ -2,7 +2,7 @@
 //! regenerated from /repo's working tree by tools/c17_gen.py before every build).
 //!
 //!   vh_c17 emit                 one JSON document: for every program (System, Token, Associated Token, every example
-//!                               program, the hand-written PDA program `c17pda`, the generated harness program `c17prog`) its IDL, the verifier's verdicts
+//!                               program, the hand-written PDA program `c17pda`, the hand-written shape programs `c17many_*`, the generated harness program `c17prog`) its IDL, the verifier's verdicts
 //!                               (alone in compatibility mode, all together in strict mode), the Codama lowering or its
 //!                               error, and the runtime facts (instruction / account discriminants, client metas under
 //!                               three fill modes); plus the hand-built enum-discriminant lowering probes.
@@ -42,6 +42,7 @@ fn probes() -> Vec<Probe> {
     let mut v = vec![gen_ext::probe_system(), gen_ext::probe_token(), gen_ext::probe_ata()];
     v.extend(gen_examples::example_probes());
     v.push(c17pda::__c17_probe());
+    v.extend(c17many::__c17_probes());
     v.push(c17_probe().0);
     v
 }
